@@ -260,7 +260,9 @@ class PipeCase:
             image = []
             for w in writes:
                 image.extend(list(w))
-        return Outcome(kind, msg, image, len(opens), stdout='\n'.join(shims.capture['stdout']))
+        o = Outcome(kind, msg, image, len(opens), stdout='\n'.join(shims.capture['stdout']))
+        o.intelhex = list(shims.capture['intelhex'])
+        return o
 
     # ---- concrete replay through the real CLI ----
     def concrete_config(self, model: dict) -> dict:
